@@ -1,5 +1,5 @@
 """C06 — normalisation: one routine on every route, freed tail cleared, run limit agreed by all implementations."""
-from ..rules import tail, convert, normal, fields, eqord, casts, parser
+from ..rules import tail, convert, normal, fields, eqord, casts, parser, features
 
 EXPL = ("Decides: SA-TAIL: the in-place normaliser stores the new length and clears [new length, previous length) (value-equal start "
         "by linear normal form; the previous length is read before any store), the dual compressor clears from the stored length to the "
@@ -11,7 +11,7 @@ EXPL = ("Decides: SA-TAIL: the in-place normaliser stores the new length and cle
 
 
 def run(ctx):
-    cfgs = ["rel"] if ctx.tier == "quick" else ["rel", "dbg", "strict", "unsafe", "nodef"]
+    cfgs = ["rel", "unchecked"] if ctx.tier == "quick" else ["rel", "dbg", "strict", "unsafe", "nodef", "unchecked"]
     ctx.progs(cfgs)  # build all configurations in parallel
     for c in cfgs:
         prog = ctx.prog(c)
@@ -22,6 +22,8 @@ def run(ctx):
         ctx.guard("C06", "limit", lambda: normal.run_limit_agreement(ctx, prog))
         ctx.guard("C06", "isnorm", lambda: normal.is_normalized_both(ctx, prog))
         ctx.guard("C06", "capacity", lambda: parser.capacity_after_collapse(ctx, prog))
+        if c == "unchecked":
+            ctx.guard("C06", "twins", lambda: features.twins(ctx, prog, scope='FuzzyHashData::<[^>]*>::(new|init)_from_internals|FuzzyHashDualData', floor=2))
         ctx.guard("C06", "casts", lambda: casts.census(ctx, prog, scope='hash::algorithms::normalize_|FuzzyHashData.*::normaliz', floor=1))
         ctx.guard("C06", "writers", lambda: tail.classify_writers(ctx, prog, scope=r"(normalize|from_raw_form|init_from_raw_form|hash_dual::algorithms::compress|core::convert::From<internals::hash::FuzzyHashData<S1, S2, false>>)", floor=3))
     return ctx.finish(EXPL, ["slice::fill has its documented meaning"])
